@@ -58,6 +58,25 @@ CLAIMED["C11"] = dict(
     technique="stateless model checking of thread schedules with iterative preemption bounding over hooked synchronisation points, TSan as oracle",
     design_ref="3/C11", engine="engine/sched.c")
 
+CLAIMED["C03"] = dict(
+    level="model_checking",
+    text="Every history up to the stated depth over {reference of each displacement kind to one of two labels, bind, pad (incl. buffer growth), section "
+         "switch} on x86-32/x86-64/AArch64 is executed on a fresh CodeHolder+Assembler and finalised (flatten, resolve, relocate, copy); every reference "
+         "site of the image is decoded by harness-owned extractors and must designate base+section+bound offset+addend, other instruction bits unchanged, "
+         "unrepresentable references reported, unresolved count zero iff none remain; plus the boundary family around each format's range limit.",
+    note="Two labels, two sections, one base; rel32 range limits (2 GiB) not reached; adrp through labels is judged with the assembler's own (documented-by-TODO) restriction that the byte distance be page-aligned, anything else must be reported.",
+    technique="exhaustive enumeration of operation histories on the implementation with an independent field-extractor oracle",
+    design_ref="3/C03", engine="harness/c03_labels.cpp")
+
+CLAIMED["C04"] = dict(
+    level="model_checking",
+    text="Programs of 1-2 (thorough 3) absolute-reference items x 8 base addresses (straddling 2^31/2^32/2^47/2^63) x {base known at init, relocate afterwards} x "
+         "{address table last, user section after it} x 3 architectures; every site of the relocated, copied image is evaluated as the CPU would (incl. loading "
+         "address-table slots from the image); JitRuntime::add must install exactly the relocated image and the code is executed on the host.",
+    note="Item alphabet limited to the listed instruction shapes and 12 target classes; x86-32/AArch64 images are evaluated, not executed; refusing a reachable target is not judged.",
+    technique="exhaustive enumeration of program x configuration space on the implementation with a CPU-style evaluator as oracle",
+    design_ref="3/C04", engine="harness/c04_reloc.cpp")
+
 NOT_YET = "check not built yet in this round (planned, see DESIGN.md section 3); not claimed until it exists and passes"
 
 
